@@ -19,7 +19,7 @@ THEOREMS = [
     "Mesa.Legacy.C09_network_spec",
     "Mesa.Legacy.C09_network_all_simple_graphs",
 ]
-COUNTS = {"quick": 1200, "thorough": 20000}
+COUNTS = {"quick": 1200, "thorough": 80000}
 TRUSTED = [
     "CPython dict keeps insertion order and ignores re-insertion of a present key (modelled: append-if-absent list)",
     "collections.deque pop() / extendleft() (modelled as the FIFO queue they amount to); sorted() of a set of int pairs",
